@@ -138,6 +138,9 @@ structure HandlerOut where
   header : Header := []
   /-- the byte strings handed to `Write`/`ReadFrom`, one element per call, in order -/
   writes : List Bytes := []
+  /-- the handler does not return within any client's patience (it waits for a key that it holds itself:
+      30 s of real time, then `503`) -/
+  hang : Bool := false
   deriving Repr, DecidableEq
 
 /-- what the client reads off the wire -/
@@ -150,6 +153,8 @@ structure Obs where
   contacts : List Contact
   /-- branch label (Appendix A of DESIGN.md) -/
   label : String
+  /-- no response within the client's deadline -/
+  hang : Bool := false
   deriving Repr
 
 /-- the writes net/http accepts under a declared `Content-Length`: a `Write` that would exceed it
@@ -480,6 +485,9 @@ def lookup (cfg : Config) (now : Int) (keys : List Key) (d : Disk) (client : Hea
 inductive Step where
   | done (a : Ans)
   | reenter (disk : Disk) (client ai : Header) (skipRevalidate : Bool) (contacts : List Contact) (tag : String)
+  /-- the re-entry after a 304 of a writer whose disk writes are disabled (request with Authorization):
+      `SetRevalidatedAndClose` returns without `Close`, so the key is STILL HELD by this very request -/
+  | reenterLocked (disk : Disk) (client ai : Header) (contacts : List Contact) (tag : String)
 
 /-- stream op `A`: where the client goes away -/
 def cancelAtOf (origin : Bytes → Option Origin) (req : Request) : Option Nat :=
@@ -528,6 +536,19 @@ def staleIfErrorOf (reval : Option (Key × Stored × Int)) (resp : Resp) : Bool 
   | some (_, s, age) => decide (resp.status ≥ 400) && (getCacheControlDirectives s.meta.respHeader).canStaleIfError age
   | none => false
 
+/-- the row `w:304` (server.go:383-397): the origin confirmed the stored entry; `SetRevalidatedAndClose`, the client's
+    own validator is restored, `cachingFunc` re-enters -/
+def row304 (d : Disk) (ai : Header) (cs : List Contact) (w : Writer) (sg : Conditional.Surgery) (resp : Resp) (now : Int) : Step :=
+  let client1 := if sg.used.length > 0 then sg.req.del sg.used else sg.req
+  let client2 := if sg.clientKey.length > 0 ∧ sg.clientVal.length > 0 then client1.set sg.clientKey sg.clientVal else client1
+  if w.diskWritesDisabled then
+    -- caching.go:713-716: nothing is written AND the writer is not closed: the key stays held
+    .reenterLocked d client2 (ai.set kStatus b!"revalidated") cs "w:304>"
+  else
+    match republish d w now (some (Conditional.dropZeroContentLength resp.header)) with
+    | (d1, false) => .done { disk := d1, out := { status := 500 }, contacts := cs, label := "w:304-closeerr" }
+    | (d1, true) => .reenter d1 client2 (ai.set kStatus b!"revalidated") false cs "w:304>"
+
 /-- a writer row after the origin has answered with `resp` (server.go:371-478); `cs` = the performer's
     log including this contact -/
 def afterAnswer (cfg : Config) (now : Int) (keys : List Key) (rr : Option Range.ReqRange) (d : Disk)
@@ -540,12 +561,7 @@ def afterAnswer (cfg : Config) (now : Int) (keys : List Key) (rr : Option Range.
     let client1 := if sg.used.length > 0 then sg.req.del sg.used else sg.req
     if sg.used.length > 0 ∧ resp.status = 304 ∧ !dirs.doNotCache then
       -- the row `w:304`: SetRevalidatedAndClose, restore the client's validator, re-enter
-      match (if w.diskWritesDisabled then (d, true)
-             else republish d w now (some (Conditional.dropZeroContentLength resp.header))) with
-      | (d1, false) => .done { disk := d1, out := { status := 500 }, contacts := cs, label := "w:304-closeerr" }
-      | (d1, true) =>
-        let client2 := if sg.clientKey.length > 0 ∧ sg.clientVal.length > 0 then client1.set sg.clientKey sg.clientVal else client1
-        .reenter d1 client2 (ai.set kStatus b!"revalidated") false cs "w:304>"
+      row304 d ai cs w sg resp now
     else if dirs.doNotCache then
       -- the row `w:uncacheable` (any status, a 304 included): plain stack, the entry stays as it is
       .done { disk := d, out := plainOut cfg resp (ai.set kStatus b!"uncacheable") statusOverride, contacts := cs, label := "w:uncacheable" }
@@ -609,6 +625,43 @@ def stepOnce (cfg : Config) (origin : Bytes → Option Origin) (now : Int) (req 
     .done { disk := d, out := o, contacts := cs, label := if stale then l ++ ":stale" else l }
   | (d, .writer reval) => writerRow cfg origin now req keys rr d client ai cs reval
 
+/-- the activation of `cachingFunc` that finds the key held BY ITS OWN REQUEST (`Step.reenterLocked`): `cache.Get`
+    with the lock table entry present (caching.go:292-320, `Freshness.get true`): an entry that is due for
+    revalidation is served stale inside its stale-while-revalidate window, otherwise the request waits for the
+    key - which only its own return would release (30 s of real time, then `503`: `hang`). -/
+def lockedReentry (cfg : Config) (origin : Bytes → Option Origin) (now : Int) (req : Request)
+    (d : Disk) (client ai : Header) (cs : List Contact) : Ans :=
+  let keys := keysOf cfg req client
+  let rr := Range.getRange client
+  match storageGet d keys with
+  | (d, .panic _) => { disk := d, out := { wrote := false }, contacts := cs, label := "g:panic" }
+  | (d, .notFound) => { disk := d, out := { hang := true }, contacts := cs, label := "g:selfwait" }
+  | (d, .found _ s) =>
+    match Freshness.get true (entryOf s) now cfg.force false
+        (client.get b!"if-none-match") (client.get b!"if-modified-since") cfg.sfx with
+    | .panic _ => { disk := d, out := { wrote := false }, contacts := cs, label := "g:panic" }
+    | .ok (.found304 _) =>
+      let h := Conditional.suffixETag cfg.sfx
+        (Conditional.copyHeaders (Conditional.allow304 s.meta.respHeader) (ai.set kStatus b!"hit"))
+      { disk := d, out := { status := 304, header := h }, contacts := cs, label := "f:304" }
+    | .ok (.foundFresh age) =>
+      let (o, l) := foundHit cfg s age false ai rr
+      { disk := d, out := o, contacts := cs, label := l }
+    | .ok (.foundStale age) =>
+      let (o, l) := foundHit cfg s age true ai rr
+      { disk := d, out := o, contacts := cs, label := l ++ ":stale" }
+    | .ok (.foundNoReader _) =>
+      -- `Found` without a reader (server.go:283-300): with a parsed Range the request is routed as uncacheable,
+      -- otherwise the handler logs and returns without writing anything
+      if rr.isSome then
+        match ask cfg origin req cs client with
+        | none => { disk := d, out := errorJSON 502 b!"Destination unreachable", contacts := logged cfg cs client, label := "f:noreader-err" }
+        | some resp =>
+          { disk := d, out := plainOut cfg resp (Header.set [] kStatus b!"uncacheable") none, contacts := logged cfg cs client, label := "f:noreader-pass" }
+      else { disk := d, out := { wrote := false }, contacts := cs, label := "f:noreader" }
+    | .ok (.revalidatingReader _) => { disk := d, out := { hang := true }, contacts := cs, label := "g:selfwait" }
+    | .ok (.revalidatingWriter _) => { disk := d, out := { hang := true }, contacts := cs, label := "g:selfwait" }
+
 /-- the answer to one request; `fuel` bounds the re-entries of `cachingFunc` after a 304 and after
     stale-if-error (the code has no counter of its own; `Props.SysCache.fuel_two_suffices` proves that
     two activations always suffice) -/
@@ -620,6 +673,9 @@ def cachingFunc (cfg : Config) (origin : Bytes → Option Origin) (now : Int) (r
     | .done a => a
     | .reenter d' client' ai' skip' cs' tag =>
       let a := cachingFunc cfg origin now req fuel d' client' ai' skip' cs'
+      { a with label := tag ++ a.label }
+    | .reenterLocked d' client' ai' cs' tag =>
+      let a := lockedReentry cfg origin now req d' client' ai' cs'
       { a with label := tag ++ a.label }
 
 /-- re-entries per request the driver allows the model (the code has no bound; the harness's
@@ -636,7 +692,8 @@ inductive Op where
 
 def obsOf (req : Request) (a : Ans) : Obs :=
   let (st, complete, body, hdr) := wire req.method a.out
-  { status := st, complete := complete, body := body, header := hdr, contacts := a.contacts, label := a.label }
+  { status := st, complete := complete, body := body, header := hdr, contacts := a.contacts, label := a.label,
+    hang := a.out.hang }
 
 def step (cfg : Config) (s : State) : Op → State × Option Obs
   | .tick dt => ({ s with now := s.now + dt }, none)
